@@ -304,7 +304,8 @@ fn small_symtab(enc: Enc) -> (Vec<u8>, Vec<u8>) {
     let (strs, offs) = refmodel::hashes::build_strtab(&names);
     (refmodel::hashes::build_symtab(enc, &offs), strs)
 }
-pub const HASH_NAMES: [&[u8]; 4] = [b"", b"a", b"bc", b"zz"];
+/// looked-up names: present, absent, and two whose running SysV / GNU hash reaches all-ones / zero
+pub const HASH_NAMES: [&[u8]; 6] = [b"", b"a", b"bc", b"zz", b"iiiiia\x8fx", b"glidpkx"];
 
 pub struct WordStrings {
     pub gnu: bool,
